@@ -74,6 +74,8 @@ func build(kind string) *scen {
 		w.Must("stake", w.Stake(p, specA, 100000, 1, nil, uint64(50*i)))
 		w.Must("stake", w.Stake(p, specB, 100000, 1, nil, uint64(50*i)))
 	}
+	p2, _ := w.AddAccount(common.PROVIDER, 2, 100000000) // staked only in the "young" fixture
+	s.provs = append(s.provs, p2)
 	for i := 0; i < 2; i++ {
 		c, _ := w.AddAccount(common.CONSUMER, i, 2000000)
 		s.cons = append(s.cons, c)
@@ -147,6 +149,37 @@ func build(kind string) *scen {
 			panic("fixture(late): no payout pending")
 		}
 	}
+	if kind == "young" {
+		// ten minutes before a served subscription's month expires a new provider stakes; one epoch later it is
+		// pairable. Its self delegation is less than an hour old when the month's payout (blocks-to-save after the
+		// expiry) runs: the time-weighted delegation credit is computed in whole hours.
+		must := func(p string) {
+			if p != "" {
+				panic("fixture(young): " + p)
+			}
+		}
+		w.Must("buy", w.Buy(s.cons[0], s.cons[0], "plana", 2, false, false))
+		w.Must("buy", w.Buy(s.cons[1], s.cons[1], "planb", 1, false, false))
+		must(w.AdvanceToNextEpoch(chain.BlockDt))
+		w.Must("pay", s.pay(0, 0, specA, 500))
+		sub, ok := w.Keepers.Subscription.GetSubscription(w.Ctx, s.cons[0].Addr.String())
+		if !ok {
+			panic("fixture(young): no subscription")
+		}
+		for time.Unix(int64(sub.MonthExpiryTime), 0).Sub(w.Ctx.BlockTime()) > 25*time.Hour {
+			must(w.NextBlock(24 * time.Hour))
+		}
+		must(w.AdvanceToNextEpoch(chain.BlockDt))
+		if left := time.Unix(int64(sub.MonthExpiryTime), 0).Sub(w.Ctx.BlockTime()) - 10*time.Minute; left > 0 {
+			must(w.NextBlock(left))
+		}
+		w.Must("stake", w.Stake(s.provs[2], specA, 100000, 1, nil, 20))
+		w.Must("stake", w.Stake(s.provs[2], specB, 100000, 1, nil, 20))
+		must(w.AdvanceToNextEpoch(chain.BlockDt))
+		if left := time.Unix(int64(sub.MonthExpiryTime), 0).Sub(w.Ctx.BlockTime()); left <= 0 || left > 10*time.Minute {
+			panic(fmt.Sprintf("fixture(young): %s to the month expiry", left))
+		}
+	}
 	s.start = w.Ctx.BlockTime()
 	w.MarkFixture()
 	tx := func(name string, f func(s *scen) chain.TxResult) { s.ops = append(s.ops, opdef{name: name, run: f}) }
@@ -160,6 +193,7 @@ func build(kind string) *scen {
 	tx("pay(p0,c0,specA,100)", func(s *scen) chain.TxResult { return s.pay(0, 0, specA, 100) })
 	tx("pay(p1,c0,specA,300)", func(s *scen) chain.TxResult { return s.pay(1, 0, specA, 300) })
 	tx("pay(p1,c1,specB,700)", func(s *scen) chain.TxResult { return s.pay(1, 1, specB, 700) })
+	tx("pay(p2,c0,specA,200)", func(s *scen) chain.TxResult { return s.pay(2, 0, specA, 200) })
 	tx("delegate(d,p0,50000)", func(s *scen) chain.TxResult { return s.delegate(0, 50000) })
 	tx("unbond(d,p0,20000)", func(s *scen) chain.TxResult {
 		return s.w.Tx(func() error {
@@ -457,12 +491,12 @@ func runCheck(property string) func(run *ev.Run) {
 		filtered := ev.NewRun(property, "model_checking")
 		exh := true
 		begin := time.Now()
-		for i, n := range []string{"aged", "late", "fresh"} {
-			dl := deadline * 4 / 10
-			if i == 1 {
-				dl = deadline * 3 / 10
+		for i, n := range []string{"aged", "late", "young", "fresh"} {
+			dl := deadline * 3 / 10
+			if i == 1 || i == 2 {
+				dl = deadline * 2 / 10
 			}
-			if i == 2 {
+			if i == 3 {
 				dl = deadline - time.Since(begin)
 				if dl < 20*time.Second {
 					dl = 20 * time.Second
@@ -479,7 +513,7 @@ func runCheck(property string) func(run *ev.Run) {
 			}
 		}
 		run.Set("exhaustive", exh)
-		run.Set("bound", fmt.Sprintf("all histories up to depth %d over 23 ops (buy/advance-buy/auto-renew/12-month subscriptions, IPRPC funding 1-2 months, relay payments on two specs, delegate/unbond/claim, unstake, plan new version/delete, validator slash of half its stake with jailing, unjail, +1 block, next epoch, past memory, +1 day, +31 days) from a fresh fixture, an aged one (a month with payouts, delegation, IPRPC funds, an upgrade) and a late one (subscriptions whose month expires within the last 24 h before a pools refill), horizon 100 days", depth))
+		run.Set("bound", fmt.Sprintf("all histories up to depth %d over 24 ops (buy/advance-buy/auto-renew/12-month subscriptions, IPRPC funding 1-2 months, relay payments on two specs (also to a third provider that is staked only in the young fixture), delegate/unbond/claim, unstake, plan new version/delete, validator slash of half its stake with jailing, unjail, +1 block, next epoch, past memory, +1 day, +31 days) from a fresh fixture, an aged one (a month with payouts, delegation, IPRPC funds, an upgrade) a late one (subscriptions whose month expires within the last 24 h before a pools refill) and a young one (a provider staked ten minutes before a served subscription's month expires), horizon 100 days", depth))
 		run.Assume("mock bank/account keeper of testutil/keeper (MintCoins/BurnCoins are visible in its supply); atomic txs emulated as in baseapp; begin/end blockers in app.go order; distribution/slashing/evidence begin-blockers of cosmos are not run (a slash is injected at their position)")
 	}
 }
@@ -488,6 +522,7 @@ func init() {
 	bfs.Register("econ/fresh", func() bfs.Scenario { return build("fresh") })
 	bfs.Register("econ/aged", func() bfs.Scenario { return build("aged") })
 	bfs.Register("econ/late", func() bfs.Scenario { return build("late") })
+	bfs.Register("econ/young", func() bfs.Scenario { return build("young") })
 	reg.Register(reg.Check{Property: "C09", Level: "model_checking", Run: runCheck("C09")})
 	reg.Register(reg.Check{Property: "C10", Level: "model_checking", Run: runCheck("C10")})
 	reg.Register(reg.Check{Property: "C37", Level: "model_checking", Run: runCheck("C37")})
